@@ -200,7 +200,7 @@ def check():
                      "token regexes assumed by the harnesses equal the #[regex] attributes in lexer.rs (checked at run time)",
                      "MIR lemmas: callees uninterpreted; Vec::pop returns None iff the vector is empty; Vec::push makes it non-empty",
                      "environment contracts for two unwraps: " + "; ".join("%s: %s" % (a[0], a[2]) for a in ALLOWED_PANICS)]
-    o.outside = ["the logos DFA, the parser productions, resolver, evaluator", "stack use for deeply nested input", "the LSP process",
+    o.outside = ["the logos DFA, the parser productions, resolver, evaluator", "stack use for deeply nested input", "the language server beyond opening each nasty text and one request",
                  "number literals longer than 24 digits, quoted/prefixed payloads longer than K characters"]
     thorough = tier() == "thorough"
     k = 6 if thorough else 3
